@@ -76,7 +76,8 @@ class BaseFiles(Generic[Interface]):
         try:
             stat_result = os.stat(path)
             return stat_result, stat.S_ISREG(stat_result.st_mode)
-        except FileNotFoundError:
+        except (FileNotFoundError, NotADirectoryError):
+            # /file.txt/x: a path below a regular file does not exist either
             return None, False
 
     def if_none_match(self, etag: str, if_none_match: str) -> bool:
